@@ -125,6 +125,22 @@ def body_for(beh: Dict[str, Any], req: Optional[Dict[str, Any]]) -> Tuple[bytes,
         msgs = [resp]
     elif kind == "error":
         msgs = [err]
+    elif kind in ("response_list", "response_str", "response_zero", "response_emptyobj"):
+        # results that are not (non-empty) objects: the same envelope shape with another value type
+        val = {"response_list": [TEXT, None, 1], "response_str": TEXT, "response_zero": 0, "response_emptyobj": {}}[kind]
+        msgs = [{"jsonrpc": "2.0", "id": rid, "result": val}]
+    elif kind in ("error_nullid", "error_foreignid", "error_noid", "error_plain_object"):
+        # what servers put in the body of an error status: a JSON-RPC error object without the request's id
+        e = {"jsonrpc": "2.0", "error": {"code": -32000, "message": "Bad Request: No valid session ID provided"}}
+        if kind == "error_nullid":
+            e["id"] = None
+        elif kind == "error_foreignid":
+            e["id"] = 999
+        elif kind == "error_plain_object":
+            e = {"error": "invalid_token", "error_description": TEXT}
+        return json.dumps(e, ensure_ascii=False).encode("utf-8"), []
+    elif kind == "notes_then_response_list":
+        msgs = [note1, {"jsonrpc": "2.0", "id": rid, "result": []}]
     elif kind == "batch":
         msgs = [note1, resp]
     elif kind == "notes_response":
@@ -200,6 +216,13 @@ def single_behaviours() -> List[Dict[str, Any]]:
         for body in ("response", "notes_response", "error"):
             out.append({"status": 200, "ctype": "sse", "body": body, "sse": enc})
             out.append({"status": 200, "ctype": "sse_charset", "body": body, "sse": enc})
+    for status in (400, 401, 404, 500):
+        for body in ("error_nullid", "error_foreignid", "error_noid", "error_plain_object"):
+            for ct in ("json", "other", None):
+                out.append({"status": status, "ctype": ct, "body": body})
+    for body in ("response_list", "response_str", "response_zero", "response_emptyobj", "notes_then_response_list"):
+        out.append({"status": 200, "ctype": "json", "body": body})
+        out.append({"status": 200, "ctype": "sse", "body": body})
     for n in (99, 100, 101, 150, 400):
         out.append({"status": 200, "ctype": "sse", "body": f"flood{n}"})
         out.append({"status": 200, "ctype": "json", "body": f"flood{n}"})
